@@ -70,6 +70,10 @@ def generate(tier, rng):
             stocks.append(dict(s, name=DECOR[(k + i) % len(DECOR)].format(f"Stock {i}"), proc=(ren[s["proc"]] if s["proc"] else None)))
         cases.append(dict(stream="exact", kind="system", sys=dict(uni=base["uni"], procs=procs, flows=flows, stocks=stocks), with_in_out=(k % 2 == 0),
                           own_names=(k % 3 == 2)))
+    # whole numbers beyond 2^53 held in integer arrays (counts of items, money in cents): the numpy dictionary and the pickle hold
+    # exactly these numbers
+    for k in range(4 if tier == "quick" else 12):
+        cases.append(dict(cases[k], stream="bigint", kind="bigint", coq=False))
     for k in range(30 if tier == "quick" else 200):
         body = "".join(rng.choice("abcXYZ019 _-./()[]=>&,:;#'\"\t") for _ in range(rng.randint(1, 14)))
         cases.append(dict(stream="names", kind="name", name=body))
@@ -122,6 +126,27 @@ def run_impl(case):
         except Exception as e:  # noqa
             return dict(kind="err", exc=type(e).__name__, msg=str(e)[:150])
     mfa = c02.build_system(case["sys"])
+    if case["kind"] == "bigint":
+        want = {}
+        for kind, objs in (("flows", mfa.flows), ("stocks", mfa.stocks)):
+            for j, (n, o) in enumerate(objs.items()):
+                arr = o if kind == "flows" else o.stock
+                if j % 2 == 0:
+                    arr.values = (2 ** 53 + 1 + 2 * np.arange(arr.values.size, dtype=np.int64)).reshape(arr.values.shape) * (-1) ** (j // 2)
+                want[f"{kind}|{n}"] = [str(Fraction(x)) for x in arr.values.flatten().tolist()]
+        tmp = tempfile.mkdtemp(prefix="flodym-verif-io-")
+        try:
+            d_np = fe.convert_to_dict(mfa, type="numpy")
+            pk = os.path.join(tmp, "out.pickle")
+            fe.export_mfa_to_pickle(mfa, pk)
+            loaded = pickle.load(open(pk, "rb"))
+            got = {src: {f"{kind}|{n}": [str(Fraction(x)) for x in np.asarray(v).flatten().tolist()] for kind in ("flows", "stocks") for n, v in d[kind].items()}
+                   for src, d in (("numpy dictionary", d_np), ("pickle", loaded))}
+            return dict(kind="ok", value=dict(want=want, got=got))
+        except Exception as e:  # noqa
+            return dict(kind="err", exc=type(e).__name__, msg=str(e)[:200])
+        finally:
+            shutil.rmtree(tmp, ignore_errors=True)
     if case.get("own_names"):
         # a hand-assembled system: the objects carry names of their own (the default "unnamed"), the system knows them by its keys
         for f in mfa.flows.values():
@@ -205,6 +230,13 @@ def oracle(case, obs):
         return None
     if obs["kind"] == "err":
         return f"export raised {obs['exc']}: {obs['msg'][:100]}"
+    if case["kind"] == "bigint":
+        for src, g in obs["value"]["got"].items():
+            for key, w in obs["value"]["want"].items():
+                if g.get(key) != w:
+                    j = next((i for i, (a, b) in enumerate(zip(g.get(key) or [], w)) if a != b), 0)
+                    return f"{src}: {key} holds {(g.get(key) or [None])[j] if g.get(key) else None} where the system holds {w[j]} (integer array beyond 2^53)"
+        return None
     o = obs["value"]
     s = case["sys"]
     uni = s["uni"]
